@@ -190,18 +190,18 @@ func configsFor(thorough bool, seed int64, si int) []config {
 	rng := rand.New(rand.NewSource(seed*1000003 + int64(si)*7919 + 17))
 	i, j, k := rng.Intn(4), rng.Intn(4), rng.Intn(4)
 	a := 1 + rng.Intn(2)
+	// the single-bad-node case keeps the shipped view bound (short, focused
+	// behaviours: measured to be the most sensitive configuration); MaxView=2
+	// with a bad node is covered by the "both" case.
 	return []config{
 		{"{}", "{}", 1, "allgood", true},
-		{set(i), "{}", a, "fault", false},
-		{"{}", set(j), 3 - a, "dead", false},
+		{set(i), "{}", 1, "fault", false},
+		{"{}", set(j), a, "dead", false},
 		{set(k), set(k), 2, "both", false},
 	}
 }
 
-// kindFactor scales the number of traces so that every configuration kind
-// gets a comparable number of checked states (measured: a trace with a bad
-// node generates ~6x the states of an all-good one).
-var kindFactor = map[string]int{"allgood": 4, "fault": 2, "dead": 4, "both": 1}
+// kindCost orders the invariant-checking runs, most expensive first.
 var kindCost = map[string]int{"both": 3, "fault": 2, "allgood": 1, "dead": 0}
 
 // job is one TLC process.
@@ -303,7 +303,8 @@ func (j *job) run(watchdog time.Duration) {
 		heap = "-Xmx1g"
 	}
 	jopts := fmt.Sprintf("%s -XX:ParallelGCThreads=2 -XX:CICompilerCount=2 -Djava.io.tmpdir=%s", heap, tmp)
-	j.Cmd = fmt.Sprintf("cd <dir with %s + MC.cfg> && JAVA_TOOL_OPTIONS=%q %s %s", j.Module, jopts, tlcCommand()[0], strings.Join(args, " "))
+	j.Cmd = strings.ReplaceAll(fmt.Sprintf("cd <scratch dir holding %s%s and MC.cfg (=cfg)> && JAVA_TOOL_OPTIONS=%q %s %s", j.Spec.Def.File,
+		map[bool]string{true: " + MC_probe.tla (harness/cmd/c20/probes)", false: ""}[j.Kind == "probe"], jopts, tlcCommand()[0], strings.Join(args, " ")), j.Dir, "<scratch>")
 	ctx, cancel := context.WithTimeout(context.Background(), watchdog)
 	defer cancel()
 	cmd := exec.CommandContext(ctx, tlcCommand()[0], args...)
@@ -444,7 +445,7 @@ func main() {
 	r.SetRule("case = one TLC simulation run (random behaviours generated from the shipped Init/Next, depth<=D, K traces) of one shipped .tla " +
 		"file under one constant assignment: RM={0,1,2,3}, MaxView in {1,2}, (RMFault,RMDead) in {({},{}), ({i},{}), ({},{j}), ({k},{k})} as allowed by " +
 		"the ASSUME clause (|RMFault u RMDead| <= F = 1), shipped CONSTRAINT, INVARIANTS TypeOK + InvTwoBlocksAccepted[Advanced] + InvFaultNodesCount evaluated " +
-		"by TLC on every generated state. quick: 4 assignments per spec with i,j,k,MaxView drawn from VERIF_SEED; thorough: all 26 assignments per spec. " +
+		"by TLC on every generated state. quick: 4 assignments per spec ({},{},1 as shipped; {i},{},1; {},{j},v; {k},{k},2) with i,j,k,v drawn from VERIF_SEED; thorough: all 26 assignments per spec. " +
 		"evaluations = behaviours (traces) generated by the invariant-checking runs. A (spec, assignment) pair is counted non-trivial only when separate probe " +
 		"simulations of the same spec+assignment (wrapper module with negated reachability predicates) PROVED by counter-example that block acceptance, a Commit, " +
 		"an honest node's view change and (where permitted) a bad / dead node are reached by the random behaviours.")
@@ -468,18 +469,22 @@ func main() {
 
 	// ---- budgets: pure functions of the tier --------------------------------
 	mainWorkers := 4
-	// traces per worker; multiplied per configuration kind (kindFactor) because
-	// behaviours with a bad node are several times longer/wider than the others
-	mainNum := r.Pick(1200, 2000)
+	// traces per worker and configuration kind. A behaviour with a bad node
+	// generates ~6x the states of an all-good one; violations of the fork
+	// invariant practically always need the bad node, so those configurations
+	// get the larger share of the state budget.
+	kindNum := map[string]int{
+		"allgood": r.Pick(4800, 12000),
+		"fault":   r.Pick(3600, 12000),
+		"dead":    r.Pick(3600, 6000),
+		"both":    r.Pick(1200, 4000),
+	}
 	probeNum := r.Pick(4000, 20000) // single worker
 	dlNum := r.Pick(2000, 20000)    // per worker, 2 workers (report-only InvDeadlock sample)
 	depth := 100
 	slots := 16
 	if v, err := strconv.Atoi(os.Getenv("C20_SLOTS")); err == nil && v >= 4 {
 		slots = v
-	}
-	if v, err := strconv.Atoi(os.Getenv("C20_MAIN_NUM")); err == nil && v > 0 {
-		mainNum = v
 	}
 	watchdog := time.Duration(r.Pick(15, 60)) * time.Minute
 
@@ -538,7 +543,7 @@ func main() {
 				jobs = append(jobs, j)
 				return j
 			}
-			mk("main", "", false, mainWorkers, mainNum*kindFactor[c.Kind], sr.Invs)
+			mk("main", "", false, mainWorkers, kindNum[c.Kind], sr.Invs)
 			gating := []string{"ProbeNoAccept", "ProbeNoCommit", "ProbeNoViewChange"}
 			if c.Fault != "{}" {
 				gating = append(gating, "ProbeNoBad")
